@@ -59,6 +59,10 @@ def run(m, chars, opts):
         while True:
             res = m.call("Tokenizer::feed", [tkp, qp])
             results.append(res.variant)
+            if res.variant == "EncodingIndicator":
+                lab = deref(res.f[0])
+                metas = [h for h in sorted(st["nodes"]) if st["nodes"][h]["kind"] == "element" and MD.seq_eq(st["nodes"][h]["name"].f[2].ch, [ord(c) for c in "meta"]) is True]
+                m.notes.setdefault("indicators", []).append((list(lab.ch), bool(metas) and st["nodes"][metas[-1]]["parent"] is not None))
             guard += 1
             if res.variant == "Done" or guard > 64:
                 break
